@@ -486,6 +486,8 @@ var randFuncs = map[string]string{
 	"IntN": "RandIntn", "Int64": "RandInt63", "Int64N": "RandInt63n", "N": "",
 }
 
+var timeSeams = map[string]bool{"Now": true, "Since": true, "Sleep": true, "After": true, "Tick": true, "NewTimer": true, "NewTicker": true, "AfterFunc": true, "Timer": true, "Ticker": true}
+
 var syncTypes = map[string]string{
 	"Mutex": "Mutex", "RWMutex": "RWMutex", "WaitGroup": "WaitGroup", "Once": "Once",
 }
@@ -631,8 +633,14 @@ func (fc *fileCtx) visit(n ast.Node, parent ast.Node, d int) {
 				fc.replace(n.Pos(), n.End(), "simrt."+n.Sel.Name, d, false)
 				fc.markRewritten(local)
 				fc.count("time." + n.Sel.Name)
-			case "After", "Tick", "NewTimer", "NewTicker", "AfterFunc":
-				fc.unsupported(n.Pos(), "time."+n.Sel.Name)
+			case "After", "NewTimer", "NewTicker", "AfterFunc", "Timer", "Ticker":
+				fc.replace(n.Pos(), n.End(), "simrt."+n.Sel.Name, d, false)
+				fc.markRewritten(local)
+				fc.count("time." + n.Sel.Name)
+			case "Tick":
+				fc.replace(n.Pos(), n.End(), "simrt.TimeTick", d, false)
+				fc.markRewritten(local)
+				fc.count("time.Tick")
 			}
 		case "runtime":
 			switch n.Sel.Name {
@@ -779,14 +787,42 @@ func (fc *fileCtx) simpleExpr(e ast.Expr) bool {
 		case *ast.SelectorExpr:
 			if path, _, isPkg := fc.pkgOf(n.X); isPkg {
 				switch path {
-				case "os", "sync", "time", "runtime", "maps", "context", "io", "golang.org/x/sync/errgroup":
+				case "os", "sync", "runtime", "maps", "context", "io", "golang.org/x/sync/errgroup":
 					ok = false
+				case "time":
+					if timeSeams[n.Sel.Name] {
+						ok = false
+					}
 				}
 			}
 		}
 		return ok
 	})
 	return ok
+}
+
+// timerOperand: `time.After(d)` / `time.Tick(d)` as the operand of a select
+// case (the usual way to write a timeout); d must be free of seams.
+func (fc *fileCtx) timerOperand(e ast.Expr) (string, bool) {
+	call, ok := ast.Unparen(e).(*ast.CallExpr)
+	if !ok || len(call.Args) != 1 {
+		return "", false
+	}
+	sel, ok := call.Fun.(*ast.SelectorExpr)
+	if !ok {
+		return "", false
+	}
+	path, local, isPkg := fc.pkgOf(sel.X)
+	if !isPkg || path != "time" || (sel.Sel.Name != "After" && sel.Sel.Name != "Tick") || !fc.simpleExpr(call.Args[0]) {
+		return "", false
+	}
+	fn := "simrt.After"
+	if sel.Sel.Name == "Tick" {
+		fn = "simrt.TimeTick"
+	}
+	fc.markRewritten(local)
+	fc.count("time." + sel.Sel.Name)
+	return fn + "(" + fc.srcOf(fc.src, call.Args[0]) + ")", true
 }
 
 func (fc *fileCtx) srcOf(src []byte, n ast.Node) string {
@@ -869,11 +905,14 @@ func (fc *fileCtx) rewriteSelect(n *ast.SelectStmt, d int) {
 			return
 		}
 		if recvX != nil {
-			if !fc.simpleExpr(recvX) {
+			if text, ok := fc.timerOperand(recvX); ok {
+				fmt.Fprintf(&pro, "%s := simrt.NewRecv(%s); ", name, text)
+			} else if !fc.simpleExpr(recvX) {
 				fc.unsupported(recvX.Pos(), "select case with a nested channel operation or seam call")
 				return
+			} else {
+				fmt.Fprintf(&pro, "%s := simrt.NewRecv(%s); ", name, fc.srcOf(src, recvX))
 			}
-			fmt.Fprintf(&pro, "%s := simrt.NewRecv(%s); ", name, fc.srcOf(src, recvX))
 		}
 		names = append(names, name)
 		ces = append(ces, clauseEdit{cc: cc, text: fmt.Sprintf("case %d:%s", idx, head)})
@@ -889,6 +928,11 @@ func (fc *fileCtx) rewriteSelect(n *ast.SelectStmt, d int) {
 	for _, ce := range ces {
 		fc.replace(ce.cc.Pos(), ce.cc.Colon+1, ce.text, d, false)
 		fc.skip = append(fc.skip, [2]token.Pos{ce.cc.Pos(), ce.cc.Colon + 1})
+	}
+	if !hasDefault {
+		// keeps the statement terminating when every case is (a select whose
+		// cases all return ends a function; a switch needs a default for that)
+		fc.insertBefore(n.Body.Rbrace, "default: panic(\"simrt: select fired no case\"); ", d)
 	}
 	fc.insertAfter(n.Body.Rbrace+1, "}", d)
 	fc.count("select")
